@@ -126,15 +126,23 @@ def gen_program(r, ident, now):
     if r.chance(0.3):
         effects.append({'t': 'err', 'text': gen_text(r, ident, now, 3)})
     nfiles = r.weighted([(4, 0), (4, 1), (2, 2), (1, 3)])
-    layout = r.weighted([(4, 'cwd'), (2, 'subdir'), (1, 'tmpdir')])
+    layout = r.weighted([(4, 'cwd'), (2, 'subdir'), (1, 'tmpdir'),
+                         (1.2 if nfiles >= 2 else 0, 'twodirs')])
     names = []
+    same_base = r.pick(['out', 'result']) + r.pick(TEXT_EXTS)
     for j in range(nfiles):
         binary = r.chance(0.25)
         ext = r.pick(BIN_EXTS if binary else TEXT_EXTS)
         base = r.pick(['out', 'result', 'data', 'report-1', 'a b']) + \
             ('%d' % j if j else '')
         name = base + ext
-        if layout == 'subdir':
+        if layout == 'twodirs':
+            # same basename in different directories (the reference
+            # directory is flat, so the names collide there)
+            binary = False
+            path = '%s/%s' % ('abc'[j % 3], same_base if j < 2 or
+                              r.chance(0.5) else name)
+        elif layout == 'subdir':
             path = 'outdir/' + name
         elif layout == 'tmpdir':
             path = '$TMPDIR/' + name
@@ -159,6 +167,9 @@ def gen_program(r, ident, now):
                           (2, 'glob')])
         if layout == 'tmpdir':
             refs = [] if r.chance(0.5) else ['.']
+        elif layout == 'twodirs':
+            refs = r.pick([[], ['.'], list(names),
+                           sorted({n.split('/')[0] for n in names})])
         elif how == 'default':
             refs = []
         elif how == 'explicit':
